@@ -191,7 +191,7 @@ ASSUME = ["lyon_geom's arc approximation is an oracle checked numerically (f64, 
 
 
 def run(ctx):
-    return _path.run_property(ctx, make_lines, RULE, oracle, ASSUME, nontrivial, 4500, 90000,
+    return _path.run_property(ctx, make_lines, RULE, oracle, ASSUME, nontrivial, 8000, 90000,
                               "PathOps.builder_rect / path_transform / PathShape.b_run vs PathBuilder::rect / Path::transform / PathBuilder")
 
 
